@@ -511,10 +511,16 @@ def mon_stop(sc, r):
 def gen_cancel(seed, k):
     rng = random.Random(seed * 4447 + k)
     sc = e2e.Scenario(f"cancel{k}")
-    variant = ["cancel-then-delay", "delay-then-cancel", "timeout-counts", "max-fail-2", "no-fail-fast", "leak-window"][k % 6]
+    variant = ["cancel-then-delay", "delay-then-cancel", "timeout-counts", "max-fail-2", "no-fail-fast", "leak-window", "grace-cancel"][k % 7]
     tests = []; extra = ""; threads = 4; ff = "true"; P, K, G = 60000, None, 300
     delay = 3000; leak = 200
-    if variant == "leak-window":
+    if variant == "grace-cancel":
+        # A has timed out and sits in its termination grace period (it ignores SIGTERM) when B's failure cancels the run: a non-signal
+        # cancellation leaves running units alone, so A is killed at the END of its grace period, not when the cancellation arrives
+        P, K, G = 300, 1, 2000; b_ms = rng.choice([800, 1000])
+        sc.test("t_one", "a_grace", ["ignore:15", "hang"]); tests.append({"bin": "t_one", "pkg": "alpha", "name": "a_grace", "kind": "grace", "deadline": P * K, "G": G})
+        sc.test("t_two", "b_fail", [f"work:{b_ms}", "exit:1"]); tests.append({"bin": "t_two", "pkg": "alpha", "name": "b_fail", "kind": "fail"})
+    elif variant == "leak-window":
         # A has exited 0 but a descendant keeps its pipes open well past the leak timeout; B's failure (fail-fast) arrives
         # while nextest is still waiting for A's pipes: A is nevertheless a leaky pass, and must be reported as such
         leak = 1200; b_ms = rng.choice([300, 500])
@@ -579,6 +585,12 @@ def mon_cancel(sc, r):
         if len(a) != 1: V("retry-after-cancel", f"[{variant}] a_retry ran {len(a)} attempts; its retry must not start once the run is cancelled")
         over = ms(r.t1 - last_end)
         if over > SLACK_HI + 300: V("sat-out-delay", f"[{variant}] the run ended {over:.0f} ms after the last running test had ended (retry delay {m['delay']} ms): a cancelled run must not sit out retry delays")
+    if variant == "grace-cancel":
+        t = m["tests"][0]; ps = tprocs(r, "t_one", "a_grace"); evf = events_for(r, "TestFinished", key_of("t_one", "alpha", "a_grace"))
+        if ps and evf:
+            lived = ms(evf[-1][0] - ps[0]["start"]); want = t["deadline"] + t["G"]
+            if lived < want - SLACK_LO - 100: V("early-kill", f"[{variant}] a_grace (ignores SIGTERM; deadline {t['deadline']} ms + grace {t['G']} ms) ended {lived:.0f} ms after its start: the test-failure cancellation at {ms(tc - ps[0]['start']):.0f} ms must leave a unit that is already running alone — only a signal kills it early")
+        elif not r.hung: V("early-kill", f"[{variant}] a_grace: {len(ps)} processes, finished events {len(evf)}")
     if variant == "leak-window":
         fin = finished(r, key_of("t_one", "alpha", "a_leaky"))
         if not fin: V("result", f"[{variant}] a_leaky has no final result")
